@@ -8,7 +8,7 @@ BASE_NOTE = ("Trusted base: the reference model in harness/ref (bit-slice BIP39 
              "rapid v1.3.0 and the Go toolchain. Generated-input search never establishes absence.")
 
 # id -> (built, category, technique, level text, level note, design ref)
-BUILT = set("C01 C02 C03 C05 C08 C09 C15 C16".split())
+BUILT = set("C01 C02 C03 C04 C05 C08 C09 C10 C11 C15 C16".split())
 
 # id -> (category, technique, level text, extra note, design ref)
 P = {
@@ -28,6 +28,18 @@ P = {
          "generated single-defect sentences re-classified by the reference model, errors.Is / message-content oracle",
          "Sentences with exactly one defect class (count only, checksum only, unknown token with acceptable count) are generated over all languages and sizes (counts 0..40 exhaustively) and the returned error must match ErrWordLen / ErrChecksumIncorrect / be a non-sentinel error naming an unknown token; valid sentences must give nil.",
          "Combined defects are not asserted (the property does not order them).", "6/C15"),
+ "C04": ("exploration",
+         "differential testing against a hand-written PBKDF2-HMAC-SHA512 over NFKD inputs, rapid Unicode string generators, aliasing probe on returned slices",
+         "MnemonicToSeed is compared with an independent PBKDF2/HMAC implementation on generated (mnemonic, passphrase) pairs: empty, non-mnemonics, beyond the 128-byte HMAC block, non-NFKD text, compatibility and combining sequences, passphrases beginning with combining marks, up to 1 MiB; each result must be 64 bytes and must not share memory with an earlier result.",
+         "NFKD itself comes from golang.org/x/text (same module version as /repo); hand-stated Unicode facts are asserted in the self-test to keep this from being purely circular.", "6/C04"),
+ "C10": ("exploration",
+         "metamorphic relation (NFKD-equal spellings => equal verdict) over a complete list-word sweep and rapid respellings with a self-checking inverse-NFKD substitution generator",
+         "All 10 x 2048 list words are placed in valid sentences at every word count and respelled in NFC/NFD/NFKC/NFKD/full-width with both separators; generated valid, single-defect and arbitrary strings are respelled by forms, per-token forms, NFKD-space substitution and inverse-NFKD substitution; CheckMnemonic must give the same verdict, and accept valid sentences in every spelling, under supported and unsupported languages.",
+         "The generator re-computes NFKD equality of every pair and discards (and counts) unsound variants.", "6/C10"),
+ "C11": ("exploration",
+         "metamorphic relation (NFKD-equal spellings => equal seed), anchored to the reference PBKDF2 value, over a complete list-word sweep and rapid respellings",
+         "Every list word of every language is exercised inside a 24-word sentence in NFC/NFD/NFKC/NFKD/full-width with U+0020 and U+3000 separators; generated (mnemonic, passphrase) pairs are respelled by the C10 generator; seeds must be equal and equal to the reference value.",
+         "", "6/C11"),
  "C05": ("exploration",
          "round-trip through an independent decoder + metamorphic single-bit-flip relation",
          "Sentences returned for the pairwise table and for random structured entropies are decoded by the reference decoder and must give back the entropy; for the random cases all ENT single-bit flips must change the sentence and decode to the flipped entropy.",
